@@ -1,7 +1,9 @@
-(* C09, second file: the GeoBox circle clause refuted with the REAL haversine (finding D10).
+(* C09, second file: the real-number clauses.  (1) the GeoBox circle clause refuted with the REAL haversine
+   (finding D10); (2) the circumscribing circles of circles, ellipses and full rings contain every
+   generated boundary point, for every k (corollaries of C03's on-curve theorems).
    Kept apart from C09.v because it depends on the real-number development of C07
    (Reals / Coquelicot / Interval and their axioms). *)
-From GV Require Import Prelude SphereM BoundsSphereP.
+From GV Require Import Prelude SphereM BoundsSphereP CurveM BoundsCurveP.
 From Coq Require Import Reals.
 Open Scope R_scope.
 
@@ -10,3 +12,38 @@ Theorem C09_box_circle_refuted :
   hdist d10_nw d10_centroid + 500 < hdist d10_sw d10_centroid.
 Proof. exact box_circle_refuted_haversine. Qed.
 Print Assumptions C09_box_circle_refuted.
+
+(* ---- curved shapes: "the circumscribing circle contains every boundary vertex" (as real-number statements about
+   the formulas the code contains; the 1e-6 of the property is the allowance for the float evaluation) ---- *)
+
+(* GeoCircle.circumscribing_circle returns the circle itself *)
+Theorem C09_circle_cc_contains_boundary : forall s k i,
+  -90 <= lat (c_center s) <= 90 -> 0 <= c_radius s <= PI * Rearth ->
+  (forall h, In h (c_holes s) -> h (circle_pt s k i) = false) ->
+  circle_contains s (circle_pt s k i) = true.
+Proof. exact circle_cc_contains_boundary. Qed.
+Print Assumptions C09_circle_cc_contains_boundary.
+
+(* GeoEllipse.circumscribing_circle = GeoCircle(center, semi_major) *)
+Theorem C09_ellipse_cc_contains_boundary : forall s k i,
+  -90 < lat (e_center s) < 90 ->
+  0 < e_minor s -> e_minor s <= e_major s -> e_major s < PI * Rearth ->
+  -90 < lat (ellipse_pt s k i) < 90 ->
+  circle_contains (ellipse_cc s) (ellipse_pt s k i) = true.
+Proof. exact ellipse_cc_contains_boundary. Qed.
+Print Assumptions C09_ellipse_cc_contains_boundary.
+
+(* ... and the radius is attained on the major axis: no smaller circle about the centre encloses the curve *)
+Theorem C09_ellipse_cc_radius_attained : forall s,
+  0 < e_minor s -> e_minor s <= e_major s -> radius_at s 0 = c_radius (ellipse_cc s).
+Proof. exact ellipse_cc_radius_attained. Qed.
+Print Assumptions C09_ellipse_cc_radius_attained.
+
+(* GeoRing.circumscribing_circle (full ring) = GeoCircle(center, outer_radius) *)
+Theorem C09_ring_cc_contains_boundary : forall s k i,
+  -90 <= lat (r_center s) <= 90 -> 0 <= r_inner s <= r_outer s -> r_outer s <= PI * Rearth ->
+  circle_contains (ring_cc s) (ring_outer_pt s k i) = true /\
+  circle_contains (ring_cc s) (ring_inner_pt s k i) = true /\
+  hdist (r_center s) (ring_outer_pt s k i) = c_radius (ring_cc s).
+Proof. exact ring_cc_contains_boundary. Qed.
+Print Assumptions C09_ring_cc_contains_boundary.
